@@ -313,7 +313,7 @@ def regexp(ck):
         ck.ob("C16-O3", sitestr(ct), bool(ok), "m_regExp is built from the constructor argument with default pattern options" if ok else "m_regExp initialised from %s" % describe(e), key="RegExpFilter|ctor|%s" % ct.params[0]["type"])
 
 
-def seq(ck):
+def seq(ck, rid="C16-O4"):
     F = ck.facts
     fn = F.fn("QtLogger::SeqNumberAttr::attributes")
     ck.touch(fn)
@@ -321,7 +321,7 @@ def seq(ck):
     FIELD = "QtLogger::SeqNumberAttr::m_count"
     ws = [(f, n, how) for f, n, how in field_writes(F, FIELD) if f.id == fn.id]
     if len(ws) != 1:
-        ck.ob("C16-O4", sitestr(fn), False, "attributes() modifies the counter %d times per call" % len(ws), key="SeqNumberAttr::attributes|increment-count")
+        ck.ob(rid, sitestr(fn), False, "attributes() modifies the counter %d times per call" % len(ws), key="SeqNumberAttr::attributes|increment-count")
         return
     f, n, how = ws[0]
     p = fn.nodes[fn.parent[n["id"]]]
@@ -329,11 +329,11 @@ def seq(ck):
     if how == "assign(=)":
         r = skip_copies(p.get("rhs"))
         unit = r.get("k") == "binop" and r.get("op") == "+" and ((is_this_field(r.get("lhs"), FIELD) and const_int(r.get("rhs")) == 1) or (is_this_field(r.get("rhs"), FIELD) and const_int(r.get("lhs")) == 1))
-    ck.ob("C16-O4", sitestr(fn, p), unit, "the counter advances by exactly one (%s)" % how if unit else "the counter is changed by %s" % describe(p), key="SeqNumberAttr::attributes|not-unit-increment")
+    ck.ob(rid, sitestr(fn, p), unit, "the counter advances by exactly one (%s)" % how if unit else "the counter is changed by %s" % describe(p), key="SeqNumberAttr::attributes|not-unit-increment")
     site = g.site_of(p)
     ck.require(site is not None, "increment has no CFG element")
     once = g.must_pass({site}) and not g.in_cycle(site)
-    ck.ob("C16-O4", sitestr(fn, p), once, "incremented exactly once on every path" if once else "the increment is conditional or repeated", key="SeqNumberAttr::attributes|conditional-increment")
+    ck.ob(rid, sitestr(fn, p), once, "incremented exactly once on every path" if once else "the increment is conditional or repeated", key="SeqNumberAttr::attributes|conditional-increment")
     # the attribute value is the counter
     rs = returns(fn)
     okv = bool(rs)
@@ -348,8 +348,8 @@ def seq(ck):
                     has = True
         okv = okv and has
         named = any(is_this_field(x, "QtLogger::SeqNumberAttr::m_name") for x in walk(r.get("e")))
-        ck.ob("C16-O4", sitestr(fn, r), named, "published under the configured name" if named else "the attribute name is not m_name", key="SeqNumberAttr::attributes|name")
-    ck.ob("C16-O4", sitestr(fn), okv, "the published value is the counter" if okv else "the published value does not come from the counter", key="SeqNumberAttr::attributes|value")
+        ck.ob(rid, sitestr(fn, r), named, "published under the configured name" if named else "the attribute name is not m_name", key="SeqNumberAttr::attributes|name")
+    ck.ob(rid, sitestr(fn), okv, "the published value is the counter" if okv else "the published value does not come from the counter", key="SeqNumberAttr::attributes|value")
     for f2, n2, how2 in field_writes(F, FIELD):
         if f2.id != fn.id and how2 != "ctor-init":
             ck.notes.append("m_count also written (%s) in %s" % (how2, f2.sig))
